@@ -395,7 +395,7 @@ CONTRACTS = [
     Contract("wntr.sim.hydraulics:update_network_previous_values", P + ["C10", "C16"], [_prev_values_case()]),
     Contract("wntr.network.elements:Tank.get_volume", P + ["C20"], [_get_volume_case(True), _get_volume_case(False)]),
     Contract("wntr.network.elements:Tank.init_level/level", P + ["C11"], [_init_level_case()], interpret_always=(_set_init_level,)),
-    Contract("wntr.sim.core:WNTRSimulator._get_all_tank_controls", P + ["C05", "C10"],
+    Contract("wntr.sim.core:WNTRSimulator._get_all_tank_controls", P + ["C05", "C10", "C03"],
              [_tank_controls_case(k, s) for k in ("pipe", "cv", "pump") for s in (True, False)],
              note="one tank with one adjacent link of each kind/orientation; the loops over tanks and over adjacent links are independent iterations",
              interpret_always=(C.ValueCondition, C.RelativeCondition, C.AndCondition, C.Control, C._InternalControlAction)),
